@@ -63,6 +63,9 @@ CHECKS["C14"] = ("property-based testing (proptest) against closed-form stiff pr
 CHECKS["C15"] = ("differential / metamorphic property-based testing (proptest): equivalent formulations and storages of mass matrix and Jacobian, exact solutions for mass-matrix ODEs and index-1 DAEs",
          "M y' = M g and index-1 DAEs built on closed-form ODEs are solved by Radau and compared with the exact solution and the constraint; Identity/Full/Banded mass storage, Full/Banded Jacobian storage (non-dominant couplings that force pivoting), high-level Options path vs low-level builder defaults and analytic vs finite-difference Jacobian are compared bit-for-bit or to tolerance.",
          "Bound constants as C01; mass matrices diagonally dominant (cond <= 5).", "DESIGN.md §4 C15")
+CHECKS["C20"] = ("differential property-based testing (Hypothesis, python3-vt): ivp.solve_ivp of the freshly built extension module vs the Rust solve_ivp (harness child process), bit-for-bit",
+         "Hypothesis generates problems whose right-hand sides use only + - * / in a fixed order (bit-identical in CPython and Rust) with every option the binding accepts; shapes, every bit of t/y/events/sol, status and counters are compared with the Rust harness; args delivery, constant/callable/sparse Jacobians and sparsity patterns (result unchanged, fewer calls) are checked.",
+         "Needs python3-vt with numpy/scipy/hypothesis (present); exit 2 if the extension cannot be built or imported.", "DESIGN.md §4 C20")
 PENDING = {}
 
 def main():
@@ -78,7 +81,7 @@ def main():
                 "thorough_cmd": f"./check {pid} --tier thorough",
                 "evidence_file": f"/verif/evidence/{pid}.json",
                 "replay_cmd_template": f"./check {pid} --replay {{path}}",
-                "engine": "vf",
+                "engine": "c20" if pid == "C20" else "vf",
                 "level_claimed": {"category": "exploration", "text": text, "design_ref": ref},
                 "level_note": note,
                 "technique": tech,
@@ -96,7 +99,8 @@ def main():
             "add_only": True,
         },
         "engines": [
-            {"name": "vf", "path": "/verif/harness", "serves_properties": sorted(CHECKS.keys()),
+            {"name": "c20", "path": "/verif/py", "serves_properties": ["C20"], "kind_free_text": "Hypothesis test driver (python3-vt) + `vf pycase` child process; builds the extension with cargo --features python into /verif/py/build"},
+            {"name": "vf", "path": "/verif/harness", "serves_properties": sorted(k for k in CHECKS.keys() if k != "C20"),
              "kind_free_text": "Rust binary: proptest strategies driven through TestRunner-seeded value trees in 16 shards, explicit oracles, own shrinking loop, JSON replay, evidence writer"},
         ],
         "checks": checks,
